@@ -103,12 +103,13 @@ def run(ctx):
         if ob['all_languages'] != sorted(LANGS):
             ctx.fail('language-set-changed', key0, expected=sorted(LANGS), observed=ob['all_languages'])
         for lang in ob['all_languages']:
-            for mode in ('rel', 'base', 'abs'):
+            for mode in ('rel', 'base', 'abs', 'both'):
                 key = dict(key0, language=lang, path=mode)
                 code = ob['codes'][lang][mode]
                 ctx.seen(key, nontrivial=code is not None)
                 ctx.count(f'{lang}:{"offered" if code is not None else "withheld"}')
-                pm = dict(rel='PRel', base='(PBase "sub/arr.darr")', abs=f'(PAbs {coqstr(ob["absdir"])})')[mode]
+                pm = dict(rel='PRel', base='(PBase "sub/arr.darr")', abs=f'(PAbs {coqstr(ob["absdir"])})',
+                          both=f'(PAbs {coqstr(ob["absdir"])})')[mode]
                 terms.append(f'chk_rc {coqstr(lang)} {nt} {czl(ob["shape"])} {bo} {pm} {ostr(code)}')
                 keep.append((key, code))
         terms.append(f'chk_langs {nt} {czl(ob["shape"])} {bo} [' + '; '.join(coqstr(x) for x in ob['languages']) + ']')
